@@ -34,6 +34,7 @@ type Engine struct {
 	typeByID    []types.Type
 	mu          sync.Mutex
 	specErrs    []string
+	covers      bool
 	needClo     bool
 	needBridge  bool
 	boxes       map[string]types.Type
